@@ -289,30 +289,13 @@ func (te *TemplateEngine) parseTemplate(template *Template) error {
 		baseName := extendsMatches[1]
 		baseTemplate, err := te.getTemplateInternal(baseName)
 		if err == nil {
+			// 只记录继承关系；块重写在渲染时应用到父模板内容的副本上，
+			// 父模板（缓存中与其他子模板共享）不被修改
 			template.Parent = baseTemplate
-			// 处理块重写
-			te.processBlockOverrides(template, baseTemplate)
 		}
 	}
 
 	return nil
-}
-
-// processBlockOverrides 处理块重写
-func (te *TemplateEngine) processBlockOverrides(childTemplate, parentTemplate *Template) {
-	// 遍历子模板的块定义，检查是否重写父模板的块
-	for blockName, childBlock := range childTemplate.DefinedBlocks {
-		if parentBlock, exists := parentTemplate.DefinedBlocks[blockName]; exists {
-			// 标记父模板块被重写
-			parentBlock.IsOverridden = true
-			parentBlock.Content = childBlock.Content
-		}
-	}
-
-	// 递归处理父模板的父模板
-	if parentTemplate.Parent != nil {
-		te.processBlockOverrides(childTemplate, parentTemplate.Parent)
-	}
 }
 
 // RenderToDocument 渲染模板到新文档
@@ -355,17 +338,10 @@ func (te *TemplateEngine) RenderToDocument(templateName string, data *TemplateDa
 func (te *TemplateEngine) renderTemplate(template *Template, data *TemplateData) (string, error) {
 	var content string
 
-	// 处理继承：如果有父模板，使用父模板作为基础
+	// 处理继承：如果有父模板，以父模板的（未渲染）内容为基础，
+	// 并把继承链上各级子模板的块重写应用到其中
 	if template.Parent != nil {
-		// 渲染父模板作为基础内容
-		parentContent, err := te.renderTemplate(template.Parent, data)
-		if err != nil {
-			return "", err
-		}
-		content = parentContent
-
-		// 应用子模板的块重写到父模板内容中
-		content = te.applyBlockOverrides(content, template)
+		content = te.inheritedContent(template)
 	} else {
 		// 没有父模板，直接使用当前模板内容
 		content = template.Content
@@ -389,9 +365,19 @@ func (te *TemplateEngine) renderTemplate(template *Template, data *TemplateData)
 	return content, nil
 }
 
+// inheritedContent 返回模板继承链最顶层模板的内容，其中的块已依次被各级子模板重写
+// （离 template 越近的重写优先）。只读取模板，不修改任何模板。
+func (te *TemplateEngine) inheritedContent(template *Template) string {
+	if template.Parent == nil {
+		return template.Content
+	}
+	return te.applyBlockOverrides(te.inheritedContent(template.Parent), template)
+}
+
 // applyBlockOverrides 将子模板的块重写应用到父模板内容中
 func (te *TemplateEngine) applyBlockOverrides(content string, template *Template) string {
-	// 将子模板的块内容替换父模板中对应的块占位符
+	// 将子模板的块内容替换父模板中对应块的内容；保留块标记，
+	// 使更下一级的子模板仍可重写该块（标记最终由 renderBlocks 去除）
 	blockPattern := regexp.MustCompile(`(?s)\{\{#block\s+"([^"]+)"\}\}.*?\{\{/block\}\}`)
 
 	return blockPattern.ReplaceAllStringFunc(content, func(match string) string {
@@ -400,7 +386,7 @@ func (te *TemplateEngine) applyBlockOverrides(content string, template *Template
 			blockName := matches[1]
 			// 如果子模板中定义了这个块，使用子模板的内容
 			if childBlock, exists := template.DefinedBlocks[blockName]; exists {
-				return childBlock.Content
+				return `{{#block "` + blockName + `"}}` + childBlock.Content + `{{/block}}`
 			}
 		}
 		return match // 保持原样
